@@ -17,7 +17,13 @@ import (
 	json2 "github.com/trustbloc/sidetree-go/pkg/util/json"
 )
 
-const jsonPatchAddTemplate = `{ "op": "add", "path": "/%s", "value": %s }`
+// the path is put in as a JSON string (with its quotes)
+const jsonPatchAddTemplate = `{ "op": "add", "path": %s, "value": %s }`
+
+// a member name as one JSON-pointer reference token (RFC 6901, section 3)
+//
+//nolint:gochecknoglobals
+var pointerTokenEncoder = strings.NewReplacer("~", "~0", "/", "~1")
 
 // Action defines action of document patch.
 type Action string
@@ -119,7 +125,16 @@ func PatchesFromDocument(doc string) ([]Patch, error) {
 		case document.AlsoKnownAs:
 			docPatch, err = NewAddAlsoKnownAs(string(jsonBytes))
 		default:
-			jsonPatches = append(jsonPatches, fmt.Sprintf(jsonPatchAddTemplate, key, string(jsonBytes)))
+			// a name with '/' or '~' in it is one token of the pointer, and a name with a quote or a backslash in it
+			// still has to give JSON text: spliced in as it was, "a/b" was added as member b of a missing member a
+			var pointer []byte
+
+			pointer, err = json.Marshal("/" + pointerTokenEncoder.Replace(key))
+			if err != nil {
+				return nil, err
+			}
+
+			jsonPatches = append(jsonPatches, fmt.Sprintf(jsonPatchAddTemplate, string(pointer), string(jsonBytes)))
 		}
 
 		if err != nil {
